@@ -109,3 +109,22 @@ pub fn verif_lex(
         Err(err) => Err((err.pos.line, err.pos.pos, err.msg)),
     }
 }
+
+/// Verification hook: render a lexical error with its own `Display` (the lexer module is private and
+/// the pipeline always converts `LexErr` into `ParseErr`, so this `Display` is otherwise unreachable).
+/// `token` stands for an identifier token of that spelling (its width is the caret run).
+#[cfg(mamba_verif)]
+pub fn verif_render_lex_err(
+    line: usize,
+    pos: usize,
+    token: Option<&str>,
+    msg: &str,
+    source: &Option<String>,
+    path: &Option<std::path::PathBuf>,
+) -> String {
+    use crate::common::position::CaretPos;
+    use crate::parse::lex::result::LexErr;
+    let token = token.map(|name| Token::Id(String::from(name)));
+    let err = LexErr::new(CaretPos::new(line, pos), token, msg).into_with_source(source, path);
+    format!("{err}")
+}
